@@ -195,7 +195,7 @@ func filterOpsByVersionTime(ops []*operation.AnchoredOperation, timeStr string) 
 	}
 
 	for _, op := range ops {
-		if op.TransactionTime <= uint64(vt.Unix()) {
+		if vt.Unix() >= 0 && op.TransactionTime <= uint64(vt.Unix()) {
 			filteredOps = append(filteredOps, op)
 		}
 	}
